@@ -4,7 +4,7 @@ from .. import common as C, gallina as G
 from . import base
 
 PROP = "C16"
-IMPORTS = "Base.Label Base.LSet Model.Decoders"
+IMPORTS = "Base.Label Base.LSet Model.Decoders Model.Simple"
 
 
 def gnats(l):
@@ -414,6 +414,20 @@ def run(v):
             obs = [sorted(m) for m in H.edges.members()]
             complete_cases.append(((n, kw), G.gpair(f"{n}%nat", gopt(kw.get("order")), gopt(kw.get("max_order")),
                                                      G.gbool(kw.get("include_singletons", False)), gnatlists(obs))))
+    # sunflower: the edge list against the model's, incl. the boundaries l = 0, c = 0, m = c
+    sunflower_cases = []
+    for l_ in range(0, 4):
+        for c_ in range(0, 3):
+            for m_ in range(c_, c_ + 3):
+                try:
+                    with warnings.catch_warnings():
+                        warnings.simplefilter("ignore")
+                        H = xgi.sunflower(l_, c_, m_)
+                except Exception as e:  # noqa: BLE001
+                    failures.append((f"{PROP}:sunflower:raises", {"what": f"sunflower({l_}, {c_}, {m_}) raised {type(e).__name__}: {e}"}))
+                    continue
+                obs = [sorted(x) for x in H.edges.members()]
+                sunflower_cases.append(((l_, c_, m_), G.gpair(f"{l_}%nat", f"{c_}%nat", f"{m_}%nat", gnatlists(obs))))
     cdir = C.cases_dir(PROP)
     body = ("Definition comb_t := [" + ";\n".join(G.gpair(f"{n}%nat", f"{m}%nat", gnatlists(t)) for n, m, t in comb_t) + "].\n"
             "Definition prod_t := [" + ";\n".join(G.gpair(f"{n}%nat", f"{m}%nat", gnatlists(t)) for n, m, t in prod_t) + "].\n"
@@ -427,10 +441,14 @@ def run(v):
     f4 = os.path.join(cdir, "cases_C16_complete.v")
     C.write_case_file(f4, [IMPORTS], "Definition cases : list (nat * option nat * option nat * bool * list (list nat)) := [\n" +
                       ";\n".join(t for _, t in complete_cases) + "\n].\nEval vm_compute in (complete_bad cases).\n")
-    res = C.run_coq_files([f1, f2, f3, f4])
+    f5 = os.path.join(cdir, "cases_C16_sunflower.v")
+    C.write_case_file(f5, [IMPORTS], "Definition cases : list (nat * nat * nat * list (list nat)) := [\n" +
+                      ";\n".join(t for _, t in sunflower_cases) + "\n].\nEval vm_compute in (sunflower_bad cases).\n")
+    res = C.run_coq_files([f1, f2, f3, f4, f5])
     for path, keys, what in ((f1, None, "decoder tables"), (f2, er_cases, "uniform_erdos_renyi_hypergraph with recorded draws"),
                              (f3, fast_cases, "fast_random_hypergraph with recorded draws"),
-                             (f4, complete_cases, "complete_hypergraph edge list")):
+                             (f4, complete_cases, "complete_hypergraph edge list"),
+                             (f5, sunflower_cases, "sunflower edge list")):
         rc, out = res[path]
         pairs = C.parse_pairs(out) if rc == 0 else None
         if pairs is None:
@@ -446,7 +464,7 @@ def run(v):
     ndec = sum(len(t) for _, _, t in comb_t) + sum(len(t) for _, _, t in prod_t) + sum(len(t) for _, t in part_t)
     v.coverage.update({
         "evaluations": ndec + len(er_cases) + len(fast_cases) + len(complete_cases),
-        "complete_cases": len(complete_cases), "boundary_calls": nboundary,
+        "complete_cases": len(complete_cases), "sunflower_cases": len(sunflower_cases), "boundary_calls": nboundary,
         "distinct_nontrivial": len(comb_t) + len(prod_t) + len(part_t) + len({k for k, _ in er_cases}) + len({repr(k) for k, _ in fast_cases}),
         "rule": f"decoders exhaustively for n <= {nmax}, m <= 5 (combinations), n <= 4, m <= 3 (tuples) and 7 block-size lists; "
                 "uniform_erdos_renyi_hypergraph (both multiedge modes) and fast_random_hypergraph re-run in the model from "
